@@ -84,11 +84,18 @@ func (x *Exec) doCall(st *State, in ssa.Instruction, c *ssa.CallCommon, mode str
 	}
 
 	if bi != nil {
+		hooked := bi.Name() != "close" && bi.Name() != "delete"
+		if hooked {
+			x.fireHooks(st, in, hookKind(mode), false, args, nil)
+		}
 		r := x.builtin(st, in, bi, c, args)
 		if st.dead {
 			return false
 		}
 		setRes(r)
+		if hooked && r != nil {
+			x.fireHooks(st, in, hookKind(mode), true, args, []SymVal{r})
+		}
 		return false
 	}
 
@@ -248,6 +255,11 @@ func (x *Exec) doCall(st *State, in ssa.Instruction, c *ssa.CallCommon, mode str
 	for _, a := range args {
 		x.escape(st, a)
 	}
+	{
+		nt := x.D.Fresh("top", SInt)
+		st.Assume(Ge(nt, st.top))
+		st.top = nt
+	}
 	res := x.freshResults(st, results, "call_"+callee.Name())
 	x.fireHooks(st, in, hookKind(mode), true, args, res)
 	setRes(packResults(res))
@@ -321,6 +333,36 @@ func (x *Exec) doReturn(st *State, i *ssa.Return) {
 			return
 		}
 		x.returns++
+		// a slice or map loaded from a guarded field must not escape the critical section by being returned
+		for _, rv0 := range i.Results {
+			cands := []ssa.Value{rv0}
+			if ld, ok := rv0.(*ssa.UnOp); ok && ld.Op == token.MUL {
+				if a, ok := ld.X.(*ssa.Alloc); ok && a.Referrers() != nil {
+					for _, ref := range *a.Referrers() {
+						if sto, ok := ref.(*ssa.Store); ok && sto.Addr == a {
+							cands = append(cands, sto.Val)
+						}
+					}
+				}
+			}
+			for _, rv := range cands {
+				if f := fieldOfLoaded(rv); f != "" {
+					for _, m := range x.CS.FieldModes[f] {
+						if m.Mode != "guarded_by" {
+							continue
+						}
+						switch types.Unalias(rv.Type()).Underlying().(type) {
+						case *types.Slice, *types.Map:
+							o := x.oblig(fmt.Sprintf("guarded-escape[%s returned]", f), "mode", x.modeProps(m), i.Pos())
+							x.Assert(st, o, False)
+						}
+					}
+				}
+			}
+		}
+		// vacuity guard: some return must be reachable (individual returns may be dead code
+		// under the contract, e.g. an error branch that the precondition excludes)
+		x.Cover(st, "some-return", i.Pos())
 		x.fireHooks(st, i, "return", false, res, res)
 		x.checkEnsures(st, i, res)
 		st.dead = true
@@ -408,7 +450,7 @@ func (x *Exec) doGo(st *State, i *ssa.Go) {
 func (x *Exec) calleeEnv(st *State, callee *ssa.Function, args []SymVal, res []SymVal) *Env {
 	env := &Env{x: x, st: st, old: st, binds: map[string]Bound{}, pkg: x.pkgPath()}
 	if callee != nil {
-		if callee.Pkg != nil {
+		if callee.Pkg != nil && x.P.Verified[callee.Pkg.Pkg.Path()] {
 			env.pkg = callee.Pkg.Pkg.Path()
 		}
 		for k, p := range callee.Params {
@@ -509,6 +551,12 @@ func (x *Exec) applyContract(st *State, in ssa.Instruction, fc *FuncContract, ca
 		if _, ok := x.keySort(k); ok {
 			x.havocKey(st, k)
 		}
+	}
+	if !fc.Pure {
+		// the callee may allocate: the frontier advances, results may be fresh objects
+		nt := x.D.Fresh("top", SInt)
+		st.Assume(Ge(nt, st.top))
+		st.top = nt
 	}
 	var res []SymVal
 	if fc.Pure {
@@ -738,6 +786,7 @@ func (x *Exec) doAppend(st *State, in ssa.Instruction, c *ssa.CallCommon, args [
 		if call, ok := in.(*ssa.Call); ok {
 			q.fr.vals[call] = res
 		}
+		x.fireHooks(q, in, "call", true, args, []SymVal{res})
 		q.fr.idx++
 		x.run(q)
 	}
@@ -1123,7 +1172,6 @@ func (x *Exec) checkEnsures(st *State, i *ssa.Return, res []SymVal) {
 	if rs.Len() >= 1 {
 		env.binds["result"] = Bound{V: res[0], T: rs.At(0).Type()}
 	}
-	x.Cover(st, fmt.Sprintf("return@b%d", i.Block().Index), i.Pos())
 	for k, c := range x.fc.Ensures {
 		o := x.oblig(x.clauseName("ensures", k, c), "ensures", c.Tags, i.Pos())
 		o.PosStr = shortPath(c.File) + fmt.Sprintf(":%d", c.Line)
